@@ -194,6 +194,11 @@ class SSHTCPClientListener(SSHClientListener, Generic[AnyStr]):
 
         return [(self._listen_host, self._listen_port)]
 
+    def set_listen_port(self, listen_port: int) -> None:
+        """Set the port number once a dynamically assigned one is known"""
+
+        self._listen_port = listen_port
+
     def get_port(self) -> int:
         """Return the port number being listened on"""
 
